@@ -1121,6 +1121,19 @@ def iterate(interp, v, lazy=False):
     raise Unsupported('iteration over %r' % (v,))
 
 
+def sentinel_items(interp, si):
+    """iter(callable, sentinel) consumed eagerly (concrete trip count)."""
+    out = []
+    while True:
+        v = interp.call(si.fn, [], {})
+        if interp.truth(py_eq(interp, v, si.sentinel)):
+            return out
+        out.append(v)
+        if len(out) > 10000:
+            raise Unsupported('iter(callable, sentinel) does not end; an '
+                              'invariant is needed')
+
+
 def obj_next_items(interp, o):
     nx = interp.getattr(o, '__next__')
     out = []
